@@ -992,6 +992,9 @@ impl SubRule {
                             if start_pos == prev_start {
                                 start_pos.increment(word);
                             }
+                            // the next attempt binds afresh
+                            self.alphas.borrow_mut().clear();
+                            self.variables.borrow_mut().clear();
                             continue 'outer;
                         }
                         state_index +=1;
